@@ -27,6 +27,8 @@ def fn_render(inner):
         name = "%s%d_%s" % (role, fid, suf)
         if form == "p":
             return name
+        if form == "r00":
+            return "|v| { if v.starts_with(' ') { return %s(v); } %s(v) }" % (name, name)
         typed = form[1] == "1"
         mut = form[2] == "1"
         if role == "s":
@@ -198,6 +200,15 @@ def decl_module(d, ops_wanted):
         arms.append('"msgs" => guard(|| { let v: Vec<String> = vec![%s]; v.join(" | ") }),' % parts)
     if "FromStr" in info.traits and info.has_validation:
         arms.append('"from_str_msg" => guard(|| { let s = <String as Arg>::parse(arg); match TT::from_str(s.as_str()) { Ok(_) => "ok".to_string(), Err(e) => e.to_string() } }),')
+    if "Deserialize" in info.traits and info.has_validation and not info.custom:
+        # the serde error of a rejected value embeds the validation sentence, whatever the format
+        arms.append('"de_msg" => guard(|| { let x = <Inner as Arg>::parse(arg); let want = match TT::try_new(x.clone()) { Ok(_) => return "accepted".to_string(), Err(e) => e.to_string() }; '
+                    # (a format may not carry the inner type at all - MessagePack and 128-bit integers - and a text
+                    # format may read a neighbouring float back as another value: only errors of the newtype are inspected)
+                    'let e1 = match rmp_serde::to_vec(&x) { Ok(mp) => rmp_serde::from_slice::<TT>(&mp).err().map(|e| e.to_string().contains(&want)).unwrap_or(true), Err(_) => true }; '
+                    'let e2 = match serde_json::to_string(&x) { Ok(js) => serde_json::from_str::<TT>(&js).err().map(|e| e.to_string().contains(&want)).unwrap_or(true), Err(_) => true }; '
+                    'let e3 = match ron::to_string(&x) { Ok(rn) => ron::from_str::<TT>(&format!("({})", rn)).err().map(|e| e.to_string().contains(&want)).unwrap_or(true), Err(_) => true }; '
+                    'format!("mp={} json={} ron={}", b(e1), b(e2), b(e3)) }),')
     if "Deserialize" in info.traits:
         cs = ("match TT::try_new(%s) { Ok(v) => ok(v.into_inner()), Err(e) => ename(&e) }" if info.has_validation
               else "ok(TT::new(%s).into_inner())")
@@ -239,6 +250,16 @@ def decl_module(d, ops_wanted):
                     'let r = serde_json::from_str::<std::collections::BTreeMap<String, TT>>(&doc).ok().map(|m| m.into_iter().map(|(k, t)| format!("{}={}", k, t.into_inner().show())).collect::<Vec<_>>().join(";")); '
                     'let e = serde_json::from_str::<std::collections::BTreeMap<String, Inner>>(&doc).ok().and_then(|m| m.into_iter().map(|(k, x)| %s.map(|t| format!("{}={}", k, t.into_inner().show()))).collect::<Option<Vec<_>>>()).map(|v| v.join(";")); '
                     'format!("{:?} ## - ## {:?}", r, e) }),' % (mko % "x"))
+        if "Clone" in info.traits:
+            # deserialize_in_place on a live value: on success the place holds what a fresh deserialization
+            # gives, on failure it still holds the value it held before
+            arms.append('"de_inplace" => guard(|| { let (a1, a2) = pair_args(arg); let d1 = <String as Arg>::parse(&a1); let d2 = <String as Arg>::parse(&a2); '
+                        'let mut place = match serde_json::from_str::<TT>(&d1) { Ok(v) => v, Err(_) => return "na".to_string() }; '
+                        'let before = place.clone().into_inner(); let mut de = serde_json::Deserializer::from_str(&d2); '
+                        'let r = <TT as serde::Deserialize>::deserialize_in_place(&mut de, &mut place); let fresh = <TT as serde::Deserialize>::deserialize(&mut serde_json::Deserializer::from_str(&d2)); '
+                        'match (r, fresh) { (Ok(()), Ok(f)) => format!("same={}", b(place.into_inner().same(&f.into_inner()))), '
+                        '(Err(_), Err(_)) => format!("kept={}", b(place.into_inner().same(&before))), '
+                        '(Ok(()), Err(_)) => "inplace_ok_fresh_err".to_string(), (Err(_), Ok(_)) => "inplace_err_fresh_ok".to_string() } }),')
         arms.append('"de_json_key" => guard(|| { let doc = <String as Arg>::parse(arg); '
                     'let r = serde_json::from_str::<Keys<TT>>(&doc).ok().map(|k| k.0.into_iter().map(|t| t.into_inner().show()).collect::<Vec<_>>().join(";")); '
                     'let e = serde_json::from_str::<Keys<Inner>>(&doc).ok().and_then(|k| k.0.into_iter().map(|x| %s.map(|t| t.into_inner().show())).collect::<Option<Vec<_>>>()).map(|v| v.join(";")); '
@@ -253,7 +274,9 @@ def decl_module(d, ops_wanted):
             if d.family() in ("int", "str"):
                 # the JSON text itself, against the model's writer (Sem/Json)
                 arms.append('"ser_text" => guard(|| { let x = <Inner as Arg>::parse(arg); match %s { Some(t) => serde_json::to_string(&t).map(|s| s.show()).unwrap_or("ser_err".to_string()), None => "rejected".to_string() } }),' % (mko % "x"))
-            for opn, mkx in (("ser", mko), ("ser_conv", conv)):
+            dflt = "{ let _ = &%s; std::panic::catch_unwind(|| TT::default()).ok() }" if ("Default" in info.traits and info.has_default) else None
+            parsed = "<TT as core::str::FromStr>::from_str(&(%s).to_string()).ok()" if ("FromStr" in info.traits and d.family() in ("int", "float")) else None
+            for opn, mkx in (("ser", mko), ("ser_conv", conv), ("ser_default", dflt), ("ser_parse", parsed)):
                 if mkx is None:
                     continue
                 arms.append('"%s" => guard(|| { let x = <Inner as Arg>::parse(arg); let t = match %s { Some(t) => t, None => return "rejected".to_string() }; '
